@@ -297,6 +297,69 @@ def two_passes(zc, ac, owned, default):
     return out
 
 
+
+def case_grow(case):
+    """observe - grow - observe on the SOURCE: a (no declared shape, compressed or uncompressed) drives a populate,
+    is then extended through its public interface (append beyond the end / insertion by reference), and drives a
+    second populate into a fresh destination: each pass offers what a presents at that time."""
+    ac, fmt, grow = case
+    feats = {"depth:1", "source_used_twice_and_grown_between", "fmt:" + fmt, "grow:" + grow[0]}
+    out = []
+    try:
+        a = _mk1(ac, 2, 0)
+        a.getRankAttrs().setFormat(fmt)
+        model = {c: Payload.get(p) for c, p in zip(a.coords, a.payloads)}
+
+        def expected():
+            if fmt == "U":
+                top = max(model) + 1 if model else 0
+                return [(c, model.get(c, 0)) for c in range(top)]
+            return [(c, v) for c, v in sorted(model.items()) if v != 0]
+        for rnd in (1, 2):
+            z = Fiber([], [])
+            exp = expected()
+            got = []
+            for c, (zr, av) in z << a:
+                got.append((c, Payload.get(av)))
+                zr <<= Payload.get(av) + 100
+            if got != exp:
+                out.append(("populate", "offered", feats | {"pass:%d" % rnd}, exp, got))
+                break
+            zexp = {c: v + 100 for c, v in exp}
+            zgot = {c: Payload.get(p) for c, p in zip(z.coords, z.payloads)}
+            if zgot != zexp:
+                out.append(("populate", "destination-content", feats | {"pass:%d" % rnd}, zexp, zgot))
+                break
+            if rnd == 1:
+                if grow[0] == "append":
+                    a.append(grow[1], grow[2])
+                else:
+                    r = a.getPayloadRef(grow[1])
+                    r <<= grow[2]
+                model[grow[1]] = grow[2]
+        core.CUR.nt("grow")
+    except Exception as ex:
+        out.append(("populate", "exception:" + type(ex).__name__, feats | {"site:" + core.exc_site(ex)}, None,
+                    core.tb_tail(ex)))
+    return out
+
+
+def shard_grow(acc, shard, nshards, params):
+    n, = params
+    u = f1(n)
+
+    def gen():
+        for ac in u:
+            top = max([i for i, x in enumerate(ac) if x != '-'] + [-1])
+            for fmt in ("C", "U"):
+                for c in range(top + 1, n + 3):
+                    for v in (0, 9):
+                        yield (ac, fmt, ("append", c, v))
+                for c in range(0, n + 3):
+                    yield (ac, fmt, ("ref", c, 9))
+    core.drive(acc, "grow", case_grow, gen(), shard, nshards, family="source-grown-between-two-populates[N=%d]" % n)
+
+
 def case_d1u(case):
     zc, ac, body, arange = case
     return check_populate(zc, ac, 1, body, False, 0, "U", arange, n=len(zc))
@@ -525,7 +588,7 @@ def shard_d2ul(acc, shard, nshards, params):
                family="depth2-U-lower-source-estimated-shape[T2(2,2) x 3 destinations]")
 
 
-CASES = {"d2ul": case_d2ul, "d2own": case_d2own, "d1": case_d1, "d1u": case_d1u, "deep": case_deep, "d2u": case_d2u}
+CASES = {"grow": case_grow, "d2ul": case_d2ul, "d2own": case_d2own, "d1": case_d1, "d1u": case_d1u, "deep": case_deep, "d2u": case_d2u}
 
 
 def run(ctx):
@@ -550,6 +613,9 @@ def run(ctx):
     ctx.shards(shard_d2own, None)
     ctx.shards(shard_d2ul, None)
     ctx.shards(shard_d1u, (3, "lpz"))
+    ctx.shards(shard_grow, (3 if ctx.quick else 4,))
+    ctx.bounds["source-grown"] = ("every 1-D source of F1(3) (thorough 4) without declared shape, compressed and uncompressed, "
+                                  "drives a populate, grows by one append / one insertion by reference, drives a second one")
     ctx.shards(shard_d2u, None)
     ctx.bounds["depth2-U-upper-source"] = "z, a in T2(2,2), a's upper rank declared uncompressed, accumulate body; source tensor snapshot incl. rank lists"
     ctx.shards(shard_deep, (2, "lp" if q else "lpz", None, None, time.time() + (60 if q else 600)))
